@@ -434,6 +434,146 @@ impl Regions {
     }
 }
 
+// ------------------------------------------------------------------------------------------ write trap
+//
+// The snapshot comparison above sees a byte that DIFFERS after (or, through the injected readers, during) an operation. A
+// value that is written and restored inside one call without any callback in between (a process-wide hook swapped around a
+// parser) leaves no difference. The write trap sees the store itself: while an operation runs, the writable pages of the
+// executable (.data/.bss) are mapped read-only; a store faults, the SIGSEGV handler logs the address, opens the page and
+// sets the CPU's single-step flag; the SIGTRAP that follows the completed instruction closes the page again. Every store into
+// static memory during every explored operation is therefore logged, deterministically, whatever value it writes.
+
+#[repr(C)]
+pub struct TrapState {
+    armed: u64,
+    n_ranges: usize,
+    ranges: [(usize, usize); 8],
+    n_log: usize,
+    log: [usize; 512],
+    faults: u64,
+    n_pending: usize,
+    pending: [usize; 4],
+    old_segv: libc::sigaction,
+}
+static TRAP: AtomicU64 = AtomicU64::new(0);
+const PAGE: usize = 4096;
+
+unsafe extern "C" fn on_segv(sig: libc::c_int, info: *mut libc::siginfo_t, ctx: *mut libc::c_void) {
+    let st = TRAP.load(Ordering::Relaxed) as *mut TrapState;
+    let addr = (*info).si_addr() as usize;
+    let hit = !st.is_null() && (*st).armed != 0 && (0..(*st).n_ranges).any(|k| addr >= (*st).ranges[k].0 && addr < (*st).ranges[k].0 + (*st).ranges[k].1);
+    if !hit {
+        // not ours: hand the signal back to whoever owned it (std's stack-overflow reporter) and let the access fault again
+        if !st.is_null() {
+            libc::sigaction(sig, &(*st).old_segv, std::ptr::null_mut());
+        } else {
+            libc::signal(sig, libc::SIG_DFL);
+        }
+        return;
+    }
+    let s = &mut *st;
+    s.faults += 1;
+    if s.n_log < s.log.len() {
+        s.log[s.n_log] = addr;
+        s.n_log += 1;
+    }
+    let page = addr & !(PAGE - 1);
+    libc::mprotect(page as *mut libc::c_void, PAGE, libc::PROT_READ | libc::PROT_WRITE);
+    if s.n_pending < s.pending.len() {
+        s.pending[s.n_pending] = page;
+        s.n_pending += 1;
+    }
+    let uc = ctx as *mut libc::ucontext_t;
+    (*uc).uc_mcontext.gregs[libc::REG_EFL as usize] |= 0x100; // TF: trap after the faulting instruction has completed
+}
+
+unsafe extern "C" fn on_trap(_sig: libc::c_int, _info: *mut libc::siginfo_t, ctx: *mut libc::c_void) {
+    let st = TRAP.load(Ordering::Relaxed) as *mut TrapState;
+    if !st.is_null() {
+        let s = &mut *st;
+        if s.armed != 0 {
+            for k in 0..s.n_pending {
+                libc::mprotect(s.pending[k] as *mut libc::c_void, PAGE, libc::PROT_READ);
+            }
+        }
+        s.n_pending = 0;
+    }
+    let uc = ctx as *mut libc::ucontext_t;
+    (*uc).uc_mcontext.gregs[libc::REG_EFL as usize] &= !0x100;
+}
+
+pub struct WriteTrap {
+    st: *mut TrapState,
+}
+
+impl WriteTrap {
+    /// install the handlers; `regions` = the writable mappings of the executable (page-aligned by construction)
+    pub fn install(regions: &Regions) -> WriteTrap {
+        unsafe {
+            let st: *mut TrapState = Box::into_raw(Box::new(std::mem::zeroed::<TrapState>()));
+            for (a, n, label) in &regions.regs {
+                if label.starts_with("TLS") {
+                    continue; // the thread's static TLS block shares pages with libc's (errno): compared by snapshot only
+                }
+                let k = (*st).n_ranges;
+                if k < 8 && a % PAGE == 0 && n % PAGE == 0 {
+                    (*st).ranges[k] = (*a, *n);
+                    (*st).n_ranges += 1;
+                }
+            }
+            TRAP.store(st as u64, Ordering::Relaxed);
+            let mut sa: libc::sigaction = std::mem::zeroed();
+            sa.sa_sigaction = on_segv as usize;
+            sa.sa_flags = libc::SA_SIGINFO | libc::SA_ONSTACK;
+            libc::sigemptyset(&mut sa.sa_mask);
+            libc::sigaction(libc::SIGSEGV, &sa, &mut (*st).old_segv);
+            let mut sb: libc::sigaction = std::mem::zeroed();
+            sb.sa_sigaction = on_trap as usize;
+            sb.sa_flags = libc::SA_SIGINFO | libc::SA_ONSTACK;
+            libc::sigemptyset(&mut sb.sa_mask);
+            libc::sigaction(libc::SIGTRAP, &sb, std::ptr::null_mut());
+            WriteTrap { st }
+        }
+    }
+    pub fn monitored_bytes(&self) -> usize {
+        unsafe { (0..(*self.st).n_ranges).map(|k| (*self.st).ranges[k].1).sum() }
+    }
+    #[inline]
+    pub fn arm(&self) {
+        unsafe {
+            let s = &mut *self.st;
+            s.n_log = 0;
+            s.n_pending = 0;
+            for k in 0..s.n_ranges {
+                libc::mprotect(s.ranges[k].0 as *mut libc::c_void, s.ranges[k].1, libc::PROT_READ);
+            }
+            std::ptr::write_volatile(&mut s.armed, 1);
+        }
+    }
+    /// reopen the pages; returns the addresses stored to since `arm` that are outside `exclude` (first few) and the number of stores
+    #[inline]
+    pub fn disarm(&self, exclude: &[(usize, usize)]) -> (Vec<usize>, usize) {
+        unsafe {
+            let s = &mut *self.st;
+            std::ptr::write_volatile(&mut s.armed, 0);
+            for k in 0..s.n_ranges {
+                libc::mprotect(s.ranges[k].0 as *mut libc::c_void, s.ranges[k].1, libc::PROT_READ | libc::PROT_WRITE);
+            }
+            let mut out = vec![];
+            for k in 0..s.n_log {
+                let a = s.log[k];
+                if !exclude.iter().any(|&(ea, en)| a >= ea && a < ea + en) && out.len() < 8 {
+                    out.push(a);
+                }
+            }
+            (out, s.n_log)
+        }
+    }
+    pub fn total_faults(&self) -> u64 {
+        unsafe { (*self.st).faults }
+    }
+}
+
 // ------------------------------------------------------------------------------------------ shared values and ops
 
 fn vfs_multi(path: &str) -> Result<Vec<u8>, Box<dyn std::error::Error + Send + Sync + 'static>> {
@@ -740,6 +880,8 @@ pub fn run(args: &Args) -> i32 {
     let regions = Regions::discover();
     // the harness' own counters of interposed calls live in .data: excluded from the diff, judged separately
     let exclude = monitor_excludes();
+    let trap = WriteTrap::install(&regions);
+    let mut trapped_stores = 0u64;
     let mut snap: Vec<u8> = Vec::with_capacity(regions.total());
     let max_len = if thorough { 5 } else { 4 };
     // thorough: length-4 histories over a 16-op collision subset (65536) on top of all length<=3 histories
@@ -765,7 +907,16 @@ pub fn run(args: &Args) -> i32 {
             regions.snapshot(&mut snap);
             let mp = MidProbe { regions: &regions, snap: &snap, exclude: &exclude };
             MID_PROBE.store(&mp as *const MidProbe as u64, Ordering::Relaxed);
+            // armed for the last operation of a history only: every proper prefix of a history is itself an explored history, so
+            // every (history, position) pair is covered while the trap's cost (two signals per store of the harness' own
+            // counters) is paid once per history
+            let trapped = pos + 1 == h.len();
+            if trapped {
+                trap.arm();
+            }
             let out = std::panic::catch_unwind(std::panic::AssertUnwindSafe(|| (op.run)(&shared)));
+            let (stored, n_stores) = if trapped { trap.disarm(&exclude) } else { (vec![], 0) };
+            trapped_stores += n_stores as u64;
             MID_PROBE.store(0, Ordering::Relaxed);
             let clk_after = CLOCK_READS.load(Ordering::Relaxed);
             let changed = regions.diff(&snap, &exclude);
@@ -788,6 +939,9 @@ pub fn run(args: &Args) -> i32 {
             }
             if !changed.is_empty() {
                 rec.violation("global_write_monitor", case(), json!("no byte of the executable's .data/.bss/TLS changes during an operation"), json!(changed.iter().map(|(l, off, addr)| format!("{l} +{off:#x} (address {addr:#x})")).collect::<Vec<_>>()));
+            }
+            if !stored.is_empty() {
+                rec.violation("global_write_trap", case(), json!("no store into the executable's .data/.bss during an operation (whatever value is stored: a value written and restored is a write)"), json!(stored.iter().map(|a| format!("store to address {a:#x}")).collect::<Vec<_>>()));
             }
             if env_after != env_before {
                 rec.violation("environment_read_monitor", case(), json!("no getenv call during an operation"), json!({"getenv_calls": env_after - env_before}));
@@ -889,11 +1043,31 @@ pub fn run(args: &Args) -> i32 {
     }
     rec.sub("histories", json!({"ops": n, "max_length": max_len, "histories": histories, "operation_executions": steps, "monitored_bytes_per_operation": regions.total(), "monitored_regions": regions.regs.iter().map(|r| format!("{} ({} bytes)", r.2, r.1)).collect::<Vec<_>>(), "distinct_result_digests": distinct_results.len()}));
     // monitor self-test: the monitors must see an injected static write, TLS write and getenv call (otherwise they are blind)
-    let selftest = monitor_selftest(&regions, &exclude);
+    let mut selftest = monitor_selftest(&regions, &exclude);
+    {
+        // write trap: a store that restores the old value (invisible to the snapshot comparison) must be logged, at its address
+        let mut snap2 = vec![];
+        regions.snapshot(&mut snap2);
+        trap.arm();
+        unsafe {
+            let p = std::ptr::addr_of_mut!(SELFTEST_STATIC);
+            let v = p.read_volatile();
+            p.write_volatile(v ^ 0xff);
+            p.write_volatile(v);
+        }
+        let (stored, n) = trap.disarm(&exclude);
+        let addr = std::ptr::addr_of!(SELFTEST_STATIC) as usize;
+        selftest["write_trap_sees_restored_store"] = json!(n == 2 && stored.iter().all(|&a| a == addr) && stored.len() == 2);
+        selftest["snapshot_comparison_blind_to_it"] = json!(regions.diff(&snap2, &exclude).is_empty());
+        trap.arm();
+        let (stored, n) = trap.disarm(&exclude);
+        selftest["write_trap_quiet_without_store"] = json!(n == 0 && stored.is_empty());
+    }
+    rec.sub("write_trap", json!({"monitored_bytes": trap.monitored_bytes(), "stores_trapped_in_all_operations (harness counters included)": trapped_stores, "faults_handled": trap.total_faults()}));
     rec.sub("monitor_selftest", selftest.clone());
     reset_ambient();
     remove_decoys();
-    if selftest["static_write_seen"] != true || selftest["tls_write_seen"] != true || selftest["getenv_seen"] != true || selftest["relative_open_seen"] != true || selftest["absolute_open_not_flagged"] != true || selftest["stderr_write_seen"] != true || selftest["clock_read_seen"] != true || selftest["mid_operation_probes_run"].as_u64().unwrap_or(0) == 0 {
+    if selftest["static_write_seen"] != true || selftest["tls_write_seen"] != true || selftest["getenv_seen"] != true || selftest["relative_open_seen"] != true || selftest["absolute_open_not_flagged"] != true || selftest["stderr_write_seen"] != true || selftest["clock_read_seen"] != true || selftest["write_trap_sees_restored_store"] != true || selftest["write_trap_quiet_without_store"] != true || selftest["mid_operation_probes_run"].as_u64().unwrap_or(0) == 0 {
         eprintln!("MACHINERY: monitor self-test failed: {selftest}");
         return 4;
     }
